@@ -21,7 +21,7 @@ type ExpNode struct {
 	Perm     int64  `json:"perm"`
 	Owner    string `json:"owner"`
 	Group    string `json:"group"`
-	MTime    int64  `json:"mtime,omitempty"` // 0 = not determined by the case (e.g. package mtime unset for generated entries)
+	MTime    int64  `json:"mtime,omitempty"`     // 0 = not determined by the case (e.g. package mtime unset for generated entries)
 	MTimeAlt int64  `json:"mtime_alt,omitempty"` // also acceptable: the on-disk mtime rounded to the nearest second
 	Target   string `json:"target,omitempty"`
 	Entry    int    `json:"entry"`
